@@ -1,10 +1,55 @@
 /-
 Props/C20 — property theorems for C20 (link URIs select the right driver and parse to the right radio settings).
+Every theorem is about Model/C20 (`parseUri` = the REPAIRED `RadioDriver.parse_uri`, see fixes/D16-c20.patch), whose
+constants, format strings, guard texts and class list are regenerated from /repo (Gen/C20).  URIs are written with the
+printers of Spec/C20 (`mkUri`, `printUri`); helper lemmas are in Proofs/C20*.
 -/
 import CfVerif.Proofs.C20
 namespace CfVerif.C20
 open CfVerif
 
+/-! ## Gen obligations: what the hand-written model assumes about the current source -/
+
 theorem gen_parsed_path : Gen.C20.parsedPathExpr = "[part for part in parsed_uri.path.split('/') if part]" := by decide
+theorem gen_urlparse : Gen.C20.parsedUriExpr = "urlparse(uri)" ∧ Gen.C20.parsedQueryExpr = "parse_qs(parsed_uri.query)" := by decide
+theorem gen_parse_tests : Gen.C20.parseUriTests = ["not uri.startswith('radio://')",
+    "len(parsed_uri.netloc) < 10 and parsed_uri.netloc.isdigit()", "len(parsed_path) > 0", "len(parsed_path) > 1",
+    "len(parsed_path) > 2", "'rate_limit' in parsed_query"] := by decide
+theorem gen_devid : Gen.C20.devidExprs = ["int(parsed_uri.netloc)", "crazyradio.get_serials().index(parsed_uri.netloc.upper())"] ∧
+    Gen.C20.devidHandlers = ["ValueError: raise Exception"] ∧ Gen.C20.netlocLenBound = 10 := by decide
+theorem gen_channel : Gen.C20.channelExpr = "int(parsed_path[0])" ∧ Gen.C20.channelDefault = 2 := by decide
+theorem gen_rates : Gen.C20.rateTable = [("250K", 0), ("1M", 1), ("2M", 2)] ∧ Gen.C20.datarateDefault = 2 := by decide
+theorem gen_address : Gen.C20.addressExpr = "new_addr" ∧ Gen.C20.addrPadArg = "parsed_path[2]" ∧
+    Gen.C20.addrUnpackArgs = ["binascii.unhexlify(addr)"] ∧ Gen.C20.addressDefault = [0xE7, 0xE7, 0xE7, 0xE7, 0xE7] := by decide
+theorem gen_address_formats : parseFormat Gen.C20.addrPadFmt = some [.field { fill := '0', align := some '>', width := 10 }] ∧
+    parseFmt Gen.C20.addrUnpackFmt = some [.B, .B, .B, .B, .B] := by decide
+theorem gen_rate_limit : Gen.C20.rateLimitKey = "rate_limit" ∧ Gen.C20.rateLimitExpr = "int(parsed_query['rate_limit'][0])" := by decide
+theorem gen_return : Gen.C20.parseUriReturn = "(devid, channel, datarate, address, rate_limit)" := by decide
+
+/-! ## Well-formed radio URIs -/
+
+/-- **parse_print.**  A radio URI names exactly one dongle, channel, data rate, 5-byte address and optional rate limit,
+and parsing returns them: for every dongle id (index below 10^9 or serial number in either case, `Dongle`), channel
+0..125, each of the three rates, address of 1..10 hex digits in either case (zero-padded on the left, bytes most
+significant first) and optional rate limit. -/
+theorem parse_print (serials : List Str) (dongle : Str) (devid : Nat) (hd : Dongle serials dongle devid)
+    (ch : Nat) (hch : ch ≤ 125) (rate : Rate)
+    (A : Str) (hA1 : 1 ≤ A.length) (hA10 : A.length ≤ 10) (hhex : ∀ c ∈ A, IsHex c)
+    (limit : Option Nat) (hl : ∀ l, limit = some l → l < 10 ^ 4300) :
+    parseUri serials (printUri dongle ch rate A limit) =
+      .ok ⟨devid, ch, rate.value, beBytes5 (hexValue A), limit.map Int.ofNat⟩ :=
+  parse_print_aux serials dongle devid hd ch hch rate A hA1 hA10 hhex limit hl
+
+/-- **Query options.**  Other options may surround the rate limit (`?a=b&rate_limit=100&c=d`); the first `rate_limit`
+counts.  Options are written without escapes (`OptOk`: no `& = + % #`, non-empty value). -/
+theorem parse_print_query_options (serials : List Str) (dongle : Str) (devid : Nat) (hd : Dongle serials dongle devid)
+    (ch : Nat) (hch : ch ≤ 125) (rate : Rate)
+    (A : Str) (hA1 : 1 ≤ A.length) (hA10 : A.length ≤ 10) (hhex : ∀ c ∈ A, IsHex c)
+    (pre post : List (Str × Str)) (hpre : ∀ kv ∈ pre, OptOk kv ∧ kv.1 ≠ "rate_limit".toList) (hpost : ∀ kv ∈ post, OptOk kv)
+    (l : Nat) (hl : l < 10 ^ 4300) :
+    parseUri serials (mkUri dongle [natStr ch, rate.text, A] false
+        (some (queryText (pre ++ ("rate_limit".toList, natStr l) :: post)))) =
+      .ok ⟨devid, ch, rate.value, beBytes5 (hexValue A), some l⟩ :=
+  parse_print_query_options_aux serials dongle devid hd ch hch rate A hA1 hA10 hhex pre post hpre hpost l hl
 
 end CfVerif.C20
